@@ -1,4 +1,9 @@
 (* C18 - Statement.get_type() names the statement's leading DML/DDL keyword. *)
+(* source pins: the functions of /repo the hand-written models in this file's cone mirror have the normalised AST they
+   were written from (tools/regen/gen_srcpins.py; a changed function breaks its Gen/Pin_*.v and this file with it) *)
+From SqlModel.Gen Require LexPins.   (* the scan loop, is_keyword, consume and the class-level state of sqlparse/lexer.py have the pinned shape *)
+From SqlModel.Gen Require Pin_sql_clauses Pin_sql_tree Pin_api_glue Pin_lexer_rules.
+From SqlModel.Inst Require PassTabOk.   (* the grouping tables and driver pins of Group/Passes.v equal the ones regenerated from the source *)
 From SqlModel.Props Require C18b.   (* the unbounded pipeline-level barrier theorem *)
 From SqlModel Require Import Base PyStr Node.
 From SqlModel.Acc Require Import Accessors AccFacts.
@@ -10,13 +15,16 @@ Definition C18_unknown_blank := get_type_unknown_blank.
 Definition C18_unknown_other := get_type_unknown_other.
 Definition C18_total := get_type_total.
 Definition C18_rest_ignored_refuted_thm := C18_rest_ignored_refuted.
-Definition C18_create_or_replace_refuted_thm := C18_create_or_replace_refuted.
+(* CREATE OR REPLACE with single blanks whatever whitespace separates the words (token level, every blank run;
+   before the fix of Token.normalized in /repo this was refuted by `create  or\n replace view ...`) *)
+Definition C18_create_or_replace_token_thm := C18_create_or_replace_token.
+Definition C18_create_or_replace_ws_ex_thm := C18_create_or_replace_ws_ex.
 Definition C18_lex_case := C_lex_case.
 Print Assumptions get_type_keyword.
 Print Assumptions get_type_cte.
 Print Assumptions get_type_total.
 Print Assumptions C18_rest_ignored_refuted.
-Print Assumptions C18_create_or_replace_refuted.
+Print Assumptions C18_create_or_replace_token.
 
 (* pipeline level, finite family (bound in the statement): every DML/DDL word of the regenerated dictionaries x
    {as listed, lower case} x 6 prefixes (whitespace/comments) x 3 separators x 18 continuations, through lexer, splitter and
